@@ -59,7 +59,12 @@ func (d *Driver) read() {
 				}
 
 				b = []byte(ss[1])
-			} else if d.Channel.PromptPattern.Match(b) {
+			}
+
+			// not an else: what followed our echo in the same read may already be a complete
+			// message (a late reply to an earlier rpc) -- it has to be filed now, before the next
+			// read is appended to it, or both end up stored under the first message's id
+			if d.Channel.PromptPattern.Match(b) {
 				var messageID int
 
 				var subID int
